@@ -10,7 +10,8 @@
  *   croute le <saddr16> <daddr16> <mac16>                            route(): domain_routing_map / LPM keys
  *   creadidx le <hex16> | creadpr le <hex16>                         match_set->index / port_range
  *
- * BPF helpers are stubs; bpf_map_lookup_elem records the key it is given.
+ * BPF helpers are stubs; bpf_map_lookup_elem records the key it is given.  croute reports the keys by
+ * map identity (first domain key; LPM key per trie index), not the number or order of lookups.
  */
 #include <stdio.h>
 #include <stdlib.h>
@@ -20,9 +21,9 @@
 #include C19_TPROXY
 
 /* ------------------------------------------------------------------ helper stubs */
-static unsigned char g_keys[16][64];
-static unsigned g_keylen[16];
-static void *g_keymap[16];
+static unsigned char g_keys[64][64];
+static unsigned g_keylen[64];
+static void *g_keymap[64];
 static unsigned g_nkeys;
 static int g_lpm_token;
 static struct match_set g_rules[8];
@@ -33,7 +34,7 @@ static unsigned char g_scratch[4096];
 
 static void rec_key(void *map, const void *key, unsigned len)
 {
-	if (g_nkeys < 16) {
+	if (g_nkeys < 64) {
 		memcpy(g_keys[g_nkeys], key, len);
 		g_keylen[g_nkeys] = len;
 		g_keymap[g_nkeys] = map;
@@ -235,16 +236,30 @@ int main(void)
 			g_rules[4].type = MatchType_Fallback;    g_rules[4].outbound = 0;
 			g_rules_len = 5;
 			(void)route(flag, &tcph, sa, da, ma);
-			/* expected order: domain key, (array idx, lpm key) x 3 */
-			if (g_nkeys == 7 && g_keymap[0] == &domain_routing_map && g_keymap[2] == &g_lpm_token &&
-			    g_keymap[4] == &g_lpm_token && g_keymap[6] == &g_lpm_token &&
-			    *(__u32 *)g_keys[1] == 5 && *(__u32 *)g_keys[3] == 6 && *(__u32 *)g_keys[5] == 7) {
-				printf("dom="); puthex(g_keys[0], g_keylen[0]);
-				printf(" lpm_d="); puthex(g_keys[2], g_keylen[2]);
-				printf(" lpm_s="); puthex(g_keys[4], g_keylen[4]);
-				printf(" lpm_m="); puthex(g_keys[6], g_keylen[6]);
-			} else {
-				printf("unexpected-lookups n=%u", g_nkeys);
+			/* The property speaks about the KEYS, not about how often or in which order route() looks
+			 * them up: take the first domain_routing_map key, and for each LPM lookup the trie index
+			 * that was fetched from lpm_array_map just before it (5 = daddr, 6 = saddr, 7 = mac). */
+			{
+				const unsigned char *dom = NULL, *kd = NULL, *ks = NULL, *km = NULL;
+				__u32 last_idx = 0xffffffff;
+
+				for (unsigned i = 0; i < g_nkeys; i++) {
+					if (g_keymap[i] == &domain_routing_map && !dom) dom = g_keys[i];
+					else if (g_keymap[i] == &lpm_array_map) last_idx = *(__u32 *)g_keys[i];
+					else if (g_keymap[i] == &g_lpm_token) {
+						if (last_idx == 5 && !kd) kd = g_keys[i];
+						else if (last_idx == 6 && !ks) ks = g_keys[i];
+						else if (last_idx == 7 && !km) km = g_keys[i];
+					}
+				}
+				if (dom && kd && ks && km) {
+					printf("dom="); puthex(dom, 16);
+					printf(" lpm_d="); puthex(kd, sizeof(struct lpm_key));
+					printf(" lpm_s="); puthex(ks, sizeof(struct lpm_key));
+					printf(" lpm_m="); puthex(km, sizeof(struct lpm_key));
+				} else {
+					printf("missing-lookups n=%u dom=%d d=%d s=%d m=%d", g_nkeys, !!dom, !!kd, !!ks, !!km);
+				}
 			}
 		} else if (!strcmp(tok[0], "creadidx") && nt == 3) {
 			struct match_set ms;
